@@ -107,6 +107,18 @@ CHECKS["C05"] = dict(
          "Name::from resolution is trusted to denote the declared type.",
     design="§4 C05")
 
+CHECKS["C07"] = dict(
+    engine="E2 mirsym (MIR -> z3)", technique="symbolic execution of rustc MIR with bounded symbolic collections (closures executed from their own MIR), z3, native replay",
+    text="Bounded symbolic model checking of the mutability kernels: check_iden_mut's per-field closure with the "
+         "environment look-up returning an arbitrary set of <= 2 (is_mut, type) entries — error iff the field is "
+         "immutable, the name undefined (unless self in a class) or some visible definition immutable; check_iden_mut "
+         "reports exactly the collected errors; gen_call's Reassign arm checks before it constrains; id_from_var "
+         "records `mutable && field-mutable` at every insert_var site.",
+    note="<= 2 definitions per name; loops cut at headers. Outside: shadowing offsets (var_mapping), tuple destructuring "
+         "through match_name, fin self / fin fields in the unifier (observed: assignment to a `fin` class field through an "
+         "instance is accepted — outside the encoded kernels, DESIGN §8).",
+    design="§4 C07")
+
 NOT_APPLICABLE = {
     "C02": "needs the generator executed on symbolic programs (core::fmt/to_py recursion does not finish in CBMC even on concrete 3-node trees) and membership in Python's grammar as the assertion; no encodable kernel (DESIGN §6)",
     "C04": "oracle is Python's dynamic semantics over whole programs and the subject is the whole checker (HashSet/recursion out of reach of Kani; not loop-free for the MIR executor) (DESIGN §6)",
